@@ -164,6 +164,68 @@ theorem es_unescaped_counterexample : ¬ EsFramesUnescaped := by
   revert this
   decide
 
+/-! ### splunk and loki: bracketed values -/
+
+/-- **splunk**: the HEC body is the envelopes `{"event":<event>…}` back to back; cutting it into
+    bracketed values gives one envelope per deliverable event, in order. Assumption: every
+    envelope is one bracketed value (true of valid JSON objects). -/
+theorem splunk_frames (cfs : List CopyField) (lim : Nat) (wd : WD) (batch : List Ev) (sc : List Nat)
+    (h : ∀ e ∈ deliverable batch, wellBracketed (splunkFrame cfs e) = true) :
+    ∃ b a sc' q, splunkOut cfs lim batch wd sc = .ok (b, a, sc') ∧ a.reqs = [q] ∧
+      unframeConcat (q.body.length + 1) q.body = some ((deliverable batch).map (splunkFrame cfs)) := by
+  refine ⟨_, _, _, _, rfl, rfl, ?_⟩
+  simp only
+  rw [forEach_eq_foldl, foldl_data _ (splunkFrame cfs) (by intro b e; rfl), resetBuf_data]
+  simp only [List.nil_append, List.flatMap_def]
+  apply unframeConcat_frames _ (by simpa using h)
+  have := length_le_flatten ((deliverable batch).map (splunkFrame cfs))
+    (by intro v hv; simp only [List.mem_map] at hv; obtain ⟨e, he, rfl⟩ := hv; exact wellBracketed_ne_nil _ (h e he))
+  omega
+
+example : ∃ q, (splunkOut [⟨lit "\"time\""⟩] 0 [⟨0, lit "{\"a\":1}", [[1], lit "7"]⟩, ⟨2, lit "{}", [[0], []]⟩, ⟨0, lit "{}", [[0], []]⟩] none []).toOption.map (fun r => r.2.1.reqs) = some [q]
+      ∧ unframeConcat (q.body.length + 1) q.body = some [lit "{\"event\":{\"a\":1},\"time\":7}", lit "{\"event\":{}}"] :=
+  ⟨_, rfl, by decide⟩
+
+/-- the `values` entries of a batch whose timestamps are all UnixNano -/
+def lokiEntriesOf (batch : List Ev) : List Bytes :=
+  (deliverable batch).map (fun e => match lokiEv e with | some l => lokiEntry l | none => [])
+
+/-- **loki**: the push request is `{"streams":[{"stream":<labels>,"values":[…]}]}` with one
+    `[ts,msg,rest]` entry per deliverable event, in order. Assumptions: the three oracle parts make
+    a bracketed value; every timestamp is UnixNano (otherwise nothing is sent — known finding). -/
+theorem loki_frames (labels : Bytes) (batch : List Ev) (wd : WD) (sc : List Nat)
+    (h : ∀ e ∈ deliverable batch, ∃ l, lokiEv e = some l ∧ l.bad = false ∧ wellBracketed (lokiEntry l) = true) :
+    ∃ b a sc' q, lokiOut labels batch wd sc = .ok (b, a, sc') ∧ a.reqs = [q] ∧
+      unframeLoki labels q.body = some (lokiEntriesOf batch) := by
+  have hvals : ∀ l : List Ev, (∀ e ∈ l, ∃ le, lokiEv e = some le ∧ le.bad = false ∧ wellBracketed (lokiEntry le) = true) →
+      lokiValues l = some (l.map (fun e => match lokiEv e with | some l => lokiEntry l | none => [])) := by
+    intro l
+    induction l with
+    | nil => intro _; rfl
+    | cons e es ih =>
+      intro hl
+      obtain ⟨le, h1, h2, _⟩ := hl e (by simp)
+      simp [lokiValues, h1, h2, ih (fun x hx => hl x (by simp [hx]))]
+  have hany : (deliverable batch).any (fun e => (lokiEv e).isNone) = false := by
+    simp only [List.any_eq_false]
+    intro e he
+    obtain ⟨le, h1, _⟩ := h e he
+    simp [h1]
+  unfold lokiOut
+  simp only [forEach_collect, List.nil_append, hany, hvals _ h]
+  refine ⟨_, _, _, _, rfl, rfl, ?_⟩
+  simp only [lokiEntriesOf]
+  apply unframeLoki_body
+  intro v hv
+  simp only [List.mem_map] at hv
+  obtain ⟨e, he, rfl⟩ := hv
+  obtain ⟨le, h1, _, h3⟩ := h e he
+  simpa [h1] using h3
+
+example : (lokiOut (lit "{}") [⟨0, [], [[0], lit "\"1\"", lit "\"m\"", lit "{}"]⟩, ⟨0, [], [[0], lit "\"2\"", lit "\"\"", lit "{\"a\":[1]}"]⟩] none []).toOption.map
+      (fun r => r.2.1.reqs.map (fun q => unframeLoki (lit "{}") q.body))
+    = some [some [lit "[\"1\",\"m\",{}]", lit "[\"2\",\"\",{\"a\":[1]}]"]] := by decide
+
 /-! ### buffer reuse -/
 
 /-- **buffer reuse**: what a batch produces does not depend on the worker data left by the
